@@ -230,7 +230,9 @@ TraceMatch ==
          seen == IF sa THEN (IF IsFile(f1, p) THEN VL(FileOf(f1, p)) ELSE <<>>)
                  ELSE LET pr == PF(pm1, p) IN
                       IF hdr \in pr.hs THEN Unescape(BodyOf(pr, hdr)) ELSE <<>>
-         outMM == IF got = "malformed"
+         outMM == IF E.panic
+                  THEN <<MM("call.panicked", exp, "panic", st, p, hdr, "")>>
+                  ELSE IF got = "malformed"
                   THEN <<MM("outcome.malformed", exp, E.logk, st, p, hdr, ToString(E.nerr) \o "/" \o ToString(E.nlog))>>
                   ELSE IF exp # "any" /\ exp # got
                   THEN <<MM("outcome", exp, got, st, p, hdr,
